@@ -250,13 +250,34 @@ def run_unit(unit, tier='quick', seed=0, keep=None, solver=None, rlimit=30):
             os.makedirs(keep, exist_ok=True)
             shutil.copy(main_p, keep)
             shutil.copy(can_p, keep)
-        with ThreadPoolExecutor(max_workers=2) as ex:
-            f1 = ex.submit(run_verus, main_p, seed, rlimit, solver, 8)
-            f2 = ex.submit(run_verus, can_p, seed, 10, solver, 8, 0)
+        # proof by cases: one file per match-arm group of every split function
+        part_files = []
+        for (pitem, pn) in sorted(asm.split_info.items()):
+            for pk in range(pn):
+                pasm = assemble(tpl, Files(REPO) if False else files, canary=False, part=(pitem, pk))
+                pp = os.path.join(work, '%s_part_%s_%d.rs' % (stem, re.sub(r'[^A-Za-z0-9]', '_', pitem), pk + 1))
+                open(pp, 'w').write(pasm.text())
+                if keep:
+                    shutil.copy(pp, keep)
+                part_files.append((pitem, pk, pasm, pp))
+        with ThreadPoolExecutor(max_workers=14) as ex:
+            f1 = ex.submit(run_verus, main_p, seed, rlimit, solver, 4)
+            f2 = ex.submit(run_verus, can_p, seed, 10, solver, 4, 0)
+            pfs = [ex.submit(run_verus, pp, seed, rlimit, solver, 2) for (_, _, _, pp) in part_files]
             run = f1.result()
             crun = f2.result()
+            pruns = [f.result() for f in pfs]
         res.cmd = re.sub(re.escape(work), '<scratch>', run['cmd'])
         failures, tool_errors, rlimits = classify(asm, run, unit)
+        part_rows = {}
+        for (pitem, pk, pasm, pp), prun in zip(part_files, pruns):
+            pf, pte, prl = classify(pasm, prun, unit)
+            failures += pf
+            tool_errors += pte
+            rlimits += prl
+            for name, row in fn_rows(prun).items():
+                if '__part' in name:
+                    part_rows.setdefault(pitem, []).append(row)
         res.seeds.append({'seed': seed, 'solver': solver or 'z3', 'failed': sorted(f['obligation'] for f in failures),
                           'wall_s': round(run['wall_s'], 2)})
         if tool_errors:
@@ -269,6 +290,12 @@ def run_unit(unit, tier='quick', seed=0, keep=None, solver=None, rlimit=30):
         if failures and not tool_errors:
             run2 = run_verus(main_p, seed + 1, rlimit, solver, 8)
             f2, te2, rl2 = classify(asm, run2, unit)
+            if part_files:
+                with ThreadPoolExecutor(max_workers=14) as ex:
+                    pr2 = [ex.submit(run_verus, pp, seed + 1, rlimit, solver, 2) for (_, _, _, pp) in part_files]
+                    for (pitem, pk, pasm, pp), fut in zip(part_files, pr2):
+                        pf2, _, _ = classify(pasm, fut.result(), unit)
+                        f2 += pf2
             names2 = set(f['obligation'] for f in f2)
             res.seeds.append({'seed': seed + 1, 'solver': solver or 'z3', 'failed': sorted(names2), 'wall_s': round(run2['wall_s'], 2)})
             stable = [f for f in failures if f['obligation'] in names2]
@@ -285,6 +312,11 @@ def run_unit(unit, tier='quick', seed=0, keep=None, solver=None, rlimit=30):
             if it['mode'] not in ('proved',):
                 continue
             hits = match_row(res.rows, it['item'])
+            if it['item'] in asm.split_info:
+                hits = part_rows.get(it['item'], [])
+                it['parts'] = asm.split_info[it['item']]
+                if len(hits) < asm.split_info[it['item']] and not tool_errors:
+                    res.inconclusive.append('split function %s: only %d of %d parts were verified' % (it['item'], len(hits), asm.split_info[it['item']]))
             it['smt_us'] = sum(h['smt_us'] for h in hits)
             it['rlimit'] = sum(h['rlimit'] for h in hits)
             it['verified'] = bool(hits) and all(h['success'] for h in hits)
